@@ -1,15 +1,93 @@
-"""C05 -- cascaded Einsums compose and are compiled independently of their predecessors."""
+"""C05 -- cascaded Einsums compose and are compiled independently of their predecessors.
+(i)   composition: whole cascades on HFMachine against the chained oracle (EinsumSem!Cascade), names and layouts (NamesTruthful, OutputRestored);
+(ii)  independence (histories): for every Einsum i and start j <= i, E_j..E_i is compiled; the statements of E_i (hook h1, temporaries
+      renumbered) must equal those of E_i compiled alone -- Independence.tla (plain and spacetime mode; metrics mode differs by design);
+(iii) state: the hook trace of every cascade is validated against TensorIRTrace.tla (Begin requires every shared tensor in its initial
+      state, Reset must restore it, every node changes only the tensor it names, emitted names match the tensor state)."""
+import io
+import json
+import os
 import random
 
+from ruamel.yaml import YAML
+
+import execpipe
 import families
-from common import seed
+import tensorirpipe
+import tlc
+from common import MachineryError, seed, workdir
 from checks._exec import run_exec, sample
+
+
+def sub_cascade(y, j, i):
+    d = execpipe.load_yaml(y)
+    d["einsum"]["expressions"] = d["einsum"]["expressions"][j:i + 1]
+    buf = io.StringIO()
+    YAML(typ="safe", pure=True).dump(d, buf)
+    return buf.getvalue()
+
+
+def specs_for(tier, rng):
+    q = tier == "quick"
+    return families.goldens(["gram", "example", "example2", "example3", "example7", "nrm_sq"]) \
+        + families.accel_specs(stripped=True, names=["outerspace", "gamma"]) \
+        + [dict(sp, yaml=families.strip_sections(sp["yaml"], spacetime=False), family=sp["family"] + "-spacetime") for sp in families.accel_specs(stripped=False, names=["outerspace", "gamma"])] \
+        + sample(families.gen_cascade, rng, 40 if q else 400)
 
 
 def run(tier, rep):
     rng = random.Random(seed())
-    q = tier == "quick"
-    specs = families.goldens(["gram", "example", "example2", "example3", "example7", "nrm_sq"]) + families.accel_specs(stripped=True, names=["outerspace", "gamma"]) \
-        + sample(families.gen_cascade, rng, 40 if q else 400)
-    run_exec("C05", tier, rep, specs, ("Err:", "OutputCorrect", "OutputRestored", "NamesTruthful"), cap_q=30, cap_t=200, rng=rng,
-             rule="multi-Einsum golden specifications + seeded cascades of 2-4 Einsums with per-Einsum mappings, re-definition and rank-ordered intermediates")
+    specs = specs_for(tier, rng)
+    items, _ = run_exec("C05", tier, rep, specs, ("Err:", "OutputCorrect", "OutputRestored", "NamesTruthful"), cap_q=30, cap_t=200, rng=rng,
+                        rule="multi-Einsum golden specifications + seeded cascades of 2-4 Einsums with per-Einsum mappings, re-definition and rank-ordered intermediates")
+    # (iii) + (ii) on every cascade that compiled
+    traces, tsrc, recs, rsrc = [], [], [], []
+    for e, m in items:
+        y = m["yaml"]
+        try:
+            text, evs = tensorirpipe.record(y)
+        except Exception:
+            continue
+        traces.append(tensorirpipe.prepare(evs))
+        tsrc.append(m)
+        segs = tensorirpipe.segments(evs)
+        n = len(segs)
+        for i in range(n):
+            variants = []
+            for j in range(i, -1, -1):
+                if j == 0:
+                    seg = segs[i]
+                else:
+                    try:
+                        _, ev2 = tensorirpipe.record(sub_cascade(y, j, i))
+                        seg = tensorirpipe.segments(ev2)[-1]
+                    except Exception:
+                        continue
+                variants.append({"what": "Einsum %d compiled after Einsums %d..%d" % (i + 1, j + 1, i) if j < i else "Einsum %d compiled alone" % (i + 1),
+                                 "out": tensorirpipe.seg_digest(seg), "stmts": seg})
+            if len(variants) >= 2 and variants[0]["what"].endswith("alone"):
+                recs.append({"variants": [{"what": v["what"], "out": v["out"]} for v in variants]})
+                rsrc.append((m, variants))
+    with workdir("C05t") as wd:
+        rejected, accepted = tensorirpipe.validate(traces, wd, rep)
+        for k, (l, ev, why) in sorted(rejected.items()):
+            m = tsrc[k]
+            rep.violation(dict(kind="tensorir", clause="TensorIR: " + why, spec=m["yaml"], text=m["text"], family=m["family"], event_index=l, event=traces[k][l - 1]))
+        if recs:
+            bf = os.path.join(wd, "indep.json")
+            json.dump({"recs": recs}, open(bf, "w"))
+            lines, stats = tlc.run("Independence", tensorirpipe.ICFG, wd, env={"INDEPENDENCE_BATCH": bf}, workers=2, tag="indep", timeout=600)
+            rep.add_tlc(stats, "Independence.tla")
+            if stats["errors"]:
+                raise MachineryError("Independence.tla failed: " + stats["errors"][0][:300])
+            for s in tlc.printed(lines, "INDEP|"):
+                _, r, what = s.split("|", 2)
+                m, variants = rsrc[int(r) - 1]
+                bad = next(v for v in variants if v["what"] == what)
+                rep.violation(dict(kind="independence", clause="code of an Einsum depends on its predecessors: " + what, spec=m["yaml"], text=m["text"], family=m["family"],
+                                   alone=variants[0]["stmts"], in_cascade=bad["stmts"]))
+    rep.cov["hook_traces_validated"] = len(traces)
+    rep.cov["hook_events"] = sum(len(t) for t in traces)
+    rep.cov["independence_records"] = len(recs)
+    rep.cov["independence_compilations"] = sum(len(r["variants"]) for r in recs)
+    rep.cov["traces_validated_against_impl"] += len(traces) + sum(len(r["variants"]) for r in recs)
